@@ -10,6 +10,7 @@ import logging
 import os
 import re
 import shutil
+import struct
 import tempfile
 
 from sim import corpus, prng, world
@@ -33,7 +34,7 @@ ASSUMPTIONS = [
     "inputs are the vendored corpus fonts (no generated fonts: not this technique)",
     "tables that carry free text are compared after XML white-space normalisation of their dumps when their bytes differ, as the property allows",
 ]
-EXPECTED_PROBES = ["merge.untouched_checked", "edit.reorder", "input.generated", "expat.split_text_node", "reader.short", "reader.text", "reader.path", "bufsize.1", "dump.splitTables", "dump.splitGlyphs", "newline.crlf", "lossless.tables_checked"]
+EXPECTED_PROBES = ["edit.emptyprog", "foreign", "foreign.VDMX", "merge.untouched_checked", "edit.reorder", "input.generated", "expat.split_text_node", "reader.short", "reader.text", "reader.path", "bufsize.1", "dump.splitTables", "dump.splitGlyphs", "newline.crlf", "lossless.tables_checked"]
 
 TIERS = {
     "quick": {"budget_s": 600, "determinism_sample": 10, "n": {"sweep": 1500}, "minimise_s": 40, "max_minimise": 3},
@@ -51,7 +52,9 @@ def _fonts():
     # ... and the fonts that the corpus TTX files compile to (CID-keyed CFF, CFF2 with several font
     # dicts, AAT and bitmap tables the binaries lack), when they are recompile fixed points
     ttx = ["ttx:" + t for t in corpus.ttx_files() if isinstance(corpus.gen2("ttx:" + t), bytes)]
-    return corpus.binaries() + ["gen:%d" % i for i in range(N_GENERATED)] + ttx
+    # ... and the table samples embedded in the table unit tests (kinds no corpus font has)
+    blobs = ["blob:" + k for k in corpus.blob_keys()]
+    return corpus.binaries() + ["gen:%d" % i for i in range(N_GENERATED)] + ttx + blobs
 
 
 NASTY_GLYPH_NAMES = ["A/B", "A_B", "a:b", "a*b", "a_b", "x&y", "x<y", "x>y", 'q"r', "p'q", "a", "A", "Aa", "aA", "AA", "aa", "con", "CON", "Con", "aux", "nul.alt", "com1", "a.alt", "A.alt", "f_f_i", "F_F_I", "uni0041", "u1F600", "semi;colon", "per%cent", "hash#", "at@", "back\\slash", "pipe|", "br[ack]et", "plus+", "q?mark", "x" * 60, "X" * 60, "x" * 59 + "Y", "dot.", ".dot", "_", "__", "a__", "A__"]
@@ -136,11 +139,32 @@ def gen_font(i):
     return _GEN[i]
 
 
+_COMPOSITE_FONTS = []
+
+
+def _composite_fonts():
+    """Fonts of the corpus with composite glyphs (found by the independent glyf reader)."""
+    if not _COMPOSITE_FONTS:
+        from oracles import glyf as oglyf
+
+        for rel in _fonts():
+            try:
+                tabs = container.tables_of(_raw(rel))
+                if "glyf" in tabs and any(g and g["nc"] < 0 for g in oglyf.parse_glyphs(tabs)[3]):
+                    _COMPOSITE_FONTS.append(rel)
+            except Exception:
+                pass
+        _COMPOSITE_FONTS.append(None)  # computed marker
+    return [f for f in _COMPOSITE_FONTS if f]
+
+
 def _raw(rel):
     if rel.startswith("gen:"):
         return gen_font(int(rel[4:]))
     if rel.startswith("ttx:"):
         return corpus.gen2(rel)
+    if rel.startswith("blob:"):
+        return corpus.blob_font(rel[5:])
     return corpus.raw(rel)
 
 
@@ -180,6 +204,12 @@ def generate(ctx, batch, idx):
     split = bool(opts.get("splitTables") or opts.get("splitGlyphs") or opts.get("bitmapGlyphDataFormat") == "extfile")
     kinds = ["path", "named-stream", "named-short"] if split else ["path", "bytesio", "text", "short", "short", "text-short", "named-short"]
     bufs = [7, 64, 4096, 0x4000, 0x4000] + ([1] if size < 12_000 else [])
+    ops = [op for op in ([["name", r.randrange(1 << 30)]] if r.random() < 0.35 else []) + ([["fixed", r.randrange(1 << 30)]] if r.random() < 0.35 else []) + ([["reorder", r.randrange(1 << 30)]] if sel is None and r.random() < 0.15 else []) + ([["emptyprog", r.randrange(1 << 30)]] if r.random() < 0.1 else [])]
+    if any(o[0] == "emptyprog" for o in ops):
+        cf = _composite_fonts()
+        if cf:
+            rel = r.choice(cf)  # the edit needs composites: most corpus fonts have none
+            sel = None if sel and r.random() < 0.7 else sel
     return {
         "kind": "sweep",
         "font": rel,
@@ -190,8 +220,10 @@ def generate(ctx, batch, idx):
         "bufsize": r.choice(bufs),
         "rseed": r.randrange(1 << 30),
         "lazy": r.choice([None, True, False]),
+        # the source as another conforming writer stores it / with tables no corpus font has (TrueType only)
+        "foreign": r.randrange(1 << 30) if r.random() < 0.2 else None,
         # EDITs applied to the object model before it is dumped (values the corpus lacks)
-        "ops": [op for op in ([["name", r.randrange(1 << 30)]] if r.random() < 0.35 else []) + ([["fixed", r.randrange(1 << 30)]] if r.random() < 0.35 else []) + ([["reorder", r.randrange(1 << 30)]] if sel is None and r.random() < 0.15 else [])],
+        "ops": ops,
     }
 
 
@@ -257,6 +289,8 @@ def _import(h, main_path, data, reader, bufsize, rseed, probes, base_font_bytes=
 
 
 _WS = re.compile(r"\s+")
+_WS_BYTES = bytes(32 if c in (9, 10, 13) else c for c in range(256))
+FREE_TEXT_TABLES = {"name", "meta", "SVG ", "Debg", "TSI1", "TSI3", "TSI5", "TSIV", "TSIJ", "TSIP", "TSIS", "TSID", "TSIB", "TSIC", "ltag"}
 
 
 def _norm_dump(font_bytes, tag):
@@ -289,6 +323,25 @@ def _execute(ctx, h, scratch):
     src = _raw(rel)
     if rel.startswith("gen:"):
         probes["input.generated"] = 1
+    if h.get("foreign") is not None and src is not None and container.kind_of(src) == "sfnt":
+        from oracles import foreign
+
+        rr = prng.sub("c03foreign", h["foreign"])
+        try:
+            v = container.foreign_variant(src, compflags=rr.choice([None, rr.randrange(1 << 16)]), emptyinstr=rr.choice([None, rr.randrange(1 << 16), rr.randrange(1 << 16)]))
+            tabs = dict(container.tables_of(v if v is not None else src))
+            if "glyf" in tabs and "maxp" in tabs and len(tabs["maxp"]) >= 6:
+                ng_ = struct.unpack_from(">H", tabs["maxp"], 4)[0]
+                for t, mk in (("VDMX", lambda: foreign.vdmx(rr)), ("hdmx", lambda: foreign.hdmx(ng_, rr)), ("LTSH", lambda: foreign.ltsh(ng_, rr))):
+                    if t not in tabs and rr.random() < 0.7:
+                        tabs[t] = mk()
+                        v = True
+                        probes["foreign." + t] = 1
+            if v is not None:
+                src = container.rebuild_sfnt(src[:4], tabs)
+                probes["foreign"] = 1
+        except (struct.error, KeyError, IndexError, ValueError):
+            pass
 
     def fail(cls, detail, **sig):
         if not res.get("violation"):
@@ -311,6 +364,22 @@ def _execute(ctx, h, scratch):
 
                 c16.apply_edit(font, "reorder", {"k": 0, "seed": seed})
                 probes["edit.reorder"] = 1
+            if name == "emptyprog" and "glyf" in font:
+                # composites that announce instructions and carry none (an empty program object): valid, and
+                # what some hinting tools leave behind
+                from fontTools.ttLib.tables import ttProgram
+
+                n_ = 0
+                for gn in font.getGlyphOrder():
+                    g_ = font["glyf"][gn]
+                    if g_.isComposite() and rr.random() < 0.7:
+                        g_.program = ttProgram.Program()
+                        g_.program.fromBytecode(b"")
+                        n_ += 1
+                        if n_ >= 5:
+                            break
+                if n_:
+                    probes["edit.emptyprog"] = 1
             if name == "fixed":
                 if "head" in font:
                     font["head"].fontRevision = rr.randrange(1, 1 << 20) / 65536.0
@@ -323,7 +392,13 @@ def _execute(ctx, h, scratch):
             # Gloc is written by its owner (Glat) and has no content of its own; so is loca, but a dump
             # may list it without glyf, and the merged font must then keep the loca it has
             cand = [t for t in tags if t not in ("Gloc",)]
-            sel_tags = sorted(set(cand[k % len(cand)] for k in h["select"][1]))
+            sel_tags = set(cand[k % len(cand)] for k in h["select"][1])
+            # bitmap location tables hold nothing but what their data table's compile puts there (like
+            # Gloc/Glat): the pair is dumped, or skipped, together
+            for loc_, dat_ in (("CBLC", "CBDT"), ("EBLC", "EBDT"), ("bloc", "bdat"), ("Gloc", "Glat")):
+                if (loc_ in sel_tags or dat_ in sel_tags) and loc_ in tags and dat_ in tags:
+                    sel_tags |= {loc_, dat_}
+            sel_tags = sorted(sel_tags)
             kw[h["select"][0]] = sel_tags
         d = os.path.join(scratch, "dump")
         os.makedirs(d)
@@ -417,9 +492,15 @@ def _execute(ctx, h, scratch):
             x, y = x[:8] + x[12:], y[:8] + y[12:]
         probes["lossless.tables_checked"] = probes.get("lossless.tables_checked", 0) + 1
         if x != y:
-            # free text is compared after white-space normalisation
+            # free text is compared after white-space normalisation - in the tables that hold free text only:
+            # the comparison goes through the dumper under test, which must not get to excuse itself elsewhere
+            if t in ("CFF ", "CFF2") and len(x) == len(y) and x.translate(_WS_BYTES) == y.translate(_WS_BYTES):
+                # CFF strings (Notice, Copyright...) are free text written as XML attributes: a line break
+                # comes back as a space; nothing but such bytes differs
+                probes["lossless.equal_after_ws_normalisation"] = probes.get("lossless.equal_after_ws_normalisation", 0) + 1
+                continue
             try:
-                if _norm_dump(a, t) == _norm_dump(ref, t):
+                if t in FREE_TEXT_TABLES and _norm_dump(a, t) == _norm_dump(ref, t):
                     probes["lossless.equal_after_ws_normalisation"] = probes.get("lossless.equal_after_ws_normalisation", 0) + 1
                     continue
             except Exception:
